@@ -7,9 +7,9 @@ SPEC = {
     "agrees": "C28.agrees",
     "in_domain": "C28.in_domain",
     "model_prop": "fun k => implb (C28.in_domain k) (C28.model_roundtrip k)",
-    "n_quick": 360,
+    "n_quick": 240,
     "n_thorough": 12000,
-    "shard": 24,
+    "shard": 16,
     "rule": "see harness/props/c28.go: transaction groups of 0-4 (thorough 0-12) write commands with typical/odd/long/binary key paths, "
             "payloads 0-6000 bytes, extreme offsets/indexes/VarRecLen, 1-6 shapes; boundary classes name 254-513 bytes, 254-512 shapes, "
             "0 shapes, path around 2^15; ~8% commands produced by the REAL write path (WriteCSM, captured before the flush); ~14% malformed "
